@@ -149,6 +149,18 @@ class C16(Check):
                 for s in d["secs"]:
                     if isinstance(s.get("seal"), int) and not isinstance(s.get("seal"), bool):
                         s["seal"] = {"slack": rng.choice([0, 1, 16])}
+            # a second minor version (same major >= 1, same fields, one more constant) of a sealed message that holds a parameterised
+            # array: the cross-version consistency rules are checked between them when the namespace is read
+            cands = [d for d in root["defs"] if len(d["secs"]) == 1 and d["secs"][0]["seal"] == "sealed" and d["ver"][0] >= 1 and d.get("port") is None
+                     and any(it[0] == "f" and it[1][0] in ("arr", "var") and isinstance(it[1][2], dict) for it in d["secs"][0]["items"])]
+            if cands and rng.random() < 0.4:
+                d0 = rng.choice(cands)
+                nm = [d0["ver"][0], d0["ver"][1] + 1 if d0["ver"][1] < 255 else d0["ver"][1] - 1]
+                if not any(x["name"] == d0["name"] and x["ver"] == nm for x in root["defs"]) and not any(it[0] in ("f", "c") and it[2].lower() == "famk" for it in d0["secs"][0]["items"]):
+                    d1 = copy.deepcopy(d0)
+                    d1["ver"] = nm
+                    d1["secs"][0]["items"].append(["c", ["u", 8, "s"], "FAMK", "1", [1, 1]])
+                    root["defs"].append(d1)
             # in-language reads of `_extent_` (the maximum, not the set) of types that hold parameterised arrays
             for d in root["defs"]:
                 for s0 in d["secs"]:
@@ -261,6 +273,10 @@ class C16(Check):
                                 row = [str(p), b.min, b.max, p.extent, b.fixed_length, b.is_aligned_at_byte(), sorted(set(b % 8))]
                                 for f, off in p.iterate_fields_with_offsets():
                                     row.append([f.name, off.is_aligned_at_byte(), off.min, off.max])
+                                    if isinstance(f.data_type, pydsdl.CompositeType) and not isinstance(f.data_type, pydsdl.ServiceType):
+                                        # the nested / unrolled walk: the offset yielded for a composite field is the base of its fields
+                                        for f2, off2 in f.data_type.iterate_fields_with_offsets(off):
+                                            row.append([f.name + ">" + f2.name, off2.is_aligned_at_byte(), off2.min, off2.max])
                                 row.append(p == p)
                                 hash(p)
                                 obs.append(row)
